@@ -50,6 +50,33 @@ PROPS = {
         "level_text": "Failure atomicity proved on the mirrors (a list failing at the k-th patch yields no document; refusal yields no state; degraded update keeps the previous document). Input immutability is partial: decided by runtime snapshots on generated histories and patch lists, since the value model cannot express Go aliasing.",
         "technique": "Coq proof of atomicity + runtime snapshot comparison (partial)",
     },
+    "C03": {
+        "props": "theories/Props/C03.v",
+        "agree": [],
+        "trusted_base": COMMON_TB + [
+            "encoding/json struct decoding is modelled (ASCII case-insensitive member match, last duplicate wins, null -> zero value, type mismatch -> error); Unicode case folds (long s, Kelvin sign) and duplicate nested members are outside the model's domain and not generated",
+            "SHA-256/512 in Gallina; binding is modulo an explicit hash collision (C06 theorems)",
+        ],
+        "assumptions": ["'same request' = equal JSON values (member order, whitespace, escapes, number spelling)"],
+        "rule": "create requests over all patch kinds, optional anchor origin (string/object/number) and type, algorithm lists [18],[19],[18,19],[19,18]; each canonical + 2 re-spellings (must give the independently computed suffix and DID) + 6 single-field modifications of suffix data / delta (must change the DID or be refused). The model parses the bytes and computes the suffix with Gallina SHA-2.",
+        "clauses": {"1": "same request refused or different DID / modification keeps the DID", "2": "suffix or id differs from the model"},
+        "level_text": "For every accepted create request: suffix = model multihash of the decoded suffix data under the first configured algorithm, id = namespace:suffix, and outside batch mode the delta validates against the recorded delta hash (proved on the byte-level parser mirror); binding and stability follow from the C06 content-addressing theorems and JCS; checked by correspondence on re-spellings and modifications.",
+        "technique": "Coq proof on the byte-level parser mirror + differential correspondence",
+    },
+    "C07": {
+        "props": "theories/Props/C07.v",
+        "agree": ["theories/Agree/AgreeFuncs.v", "theories/Agree/AgreeTables.v"],
+        "trusted_base": COMMON_TB + [
+            "encoding/json struct decoding, encoding/base64, go-multihash are modelled (see C03/C06); patch validation relative to the net/url oracle",
+            "acceptance ground truth (one labelled mutation per rule) comes from the harness's independent request builder",
+        ],
+        "assumptions": [],
+        "rule": "per operation type: valid requests for all five key types with optional members; then one labelled mutation per rule with the configuration varied independently: size limit exact (len, len-1), type member, each hash field x {unconfigured algorithm, second configured algorithm, hash length limit exact}, delta {missing, no patches, size limit exact, patch disabled, only-this-patch enabled, invalid patch first / after a valid one of the same action / last of three, unknown action}, headers {kid, extra, alg missing/empty/non-string/none}, algorithm and curve allow-lists, nonce sizes, reveal of another key, next commitments {equal, current key, current key under the other algorithm}, signed suffix, anchor origin reported / rejected, time validator arguments / rejection, algorithm list orders, malformed JSON, wrong member types.",
+        "clauses": {"1": "acceptance differs from the protocol rules (generator ground truth)", "2": "returned bytes differ from the request", "3": "id is not namespace:suffix",
+                    "4": "suffix wrong", "5": "anchor origin not reported", "6": "reported fields differ from model", "7": "time validator arguments", "8": "model refuses, implementation accepts", "9": "model accepts, implementation refuses"},
+        "level_text": "Byte-level parser mirror (strict JSON, Go decoding rules, JWS compact form, multihash rules, delta rules, commitments, validators) run against the implementation on one labelled mutation per rule with independently varied configurations; proved: size gate, reported id, time-validator window, deactivate suffix binding, create suffix. The full accepts-iff-Rules equivalence is by correspondence (partial).",
+        "technique": "Coq mirror with proved rule lemmas + translator agreement + differential correspondence (one mutation per rule)",
+    },
     "C04": {
         "props": "theories/Props/C04.v",
         "agree": [],
